@@ -105,6 +105,23 @@ func c20ops() []c20op {
 			}
 			return err
 		}},
+		{name: "GetVBucketSeqNosAware", own: 60 * time.Second, run: func(e *opEnv) error {
+			// the collection-aware variant (what the metric collector calls)
+			m, err := e.client.GetVBucketSeqNos(true)
+			if err == nil && m.Count() != e.c.NumVbs {
+				vrt.Failf("GetVBucketSeqNos(collection-aware) reported success with a table of %d of %d vBuckets", m.Count(), e.c.NumVbs)
+			}
+			return err
+		}},
+		{name: "GetVBucketSeqNosAwareOldServer", own: 60 * time.Second, run: func(e *opEnv) error {
+			// ... against a server without collections support
+			e.c.CollectionsSupported = false
+			m, err := e.client.GetVBucketSeqNos(true)
+			if err == nil && m.Count() != e.c.NumVbs {
+				vrt.Failf("GetVBucketSeqNos(collection-aware) on a server without collections reported success with a table of %d of %d vBuckets", m.Count(), e.c.NumVbs)
+			}
+			return err
+		}},
 		{name: "OpenStream", own: 60 * time.Second, run: func(e *opEnv) error {
 			return e.client.OpenStream(0, nil, &models.Offset{SnapshotMarker: &models.SnapshotMarker{}, LatestSeqNo: gocbcore.MaxSeq}, obsNop)
 		}},
@@ -285,7 +302,7 @@ func opMain(p OpParams) {
 	}
 	// 1. returns by its deadline (a hang shows up as a deadlock status)
 	limit := deadlineIn + 10*time.Millisecond
-	if op.name == "OpenStreamRollback" || op.name == "MetadataSave" || op.name == "GetVBucketSeqNos" {
+	if op.name == "OpenStreamRollback" || op.name == "MetadataSave" || strings.HasPrefix(op.name, "GetVBucketSeqNos") {
 		limit = 3*deadlineIn + 10*time.Millisecond // several sequential requests, each with its own deadline
 	}
 	if took > limit {
